@@ -136,6 +136,15 @@ func realise(rng *rand.Rand, ws []wsEntry, base map[string]string, style string)
 			ops = append(ops, kvOp{Op: "endtx"})
 		}
 	}
+	// revert-after-write: every storage entry (deletes included) is written again inside a snapshot of a later
+	// transaction, and that snapshot is reverted: the first write has to stand
+	if style == "revert-after-write" {
+		for n, e := range ws {
+			if strings.HasPrefix(e.Field, "s:") {
+				ops = append(ops, kvOp{Op: "endtx"}, kvOp{Op: "snap"}, kvOp{Op: "set", A: e.A, K: e.Field[2:], V: fmt.Sprintf("late%d", n)}, kvOp{Op: "revert", N: 0})
+			}
+		}
+	}
 	// restore-acct-field may have been ordered before the final balance write: make sure the final value wins
 	if style == "restore-acct-field" || style == "redundant" {
 		for _, e := range ws {
@@ -228,7 +237,7 @@ func r10Fork(work string, v r10Variant, baseBlocks [][]kvOp, ops []kvOp) (root s
 func root10Workload(args []string) int {
 	a := parseArgs("root10", args, nil)
 	w := vlog.Open(a.Out)
-	styles := []string{"perm", "txs", "redundant", "reads", "revert-storage", "restore-storage", "revert-acct-field", "restore-acct-field", "add-same-value", "balance-by-delta"}
+	styles := []string{"perm", "txs", "redundant", "reads", "revert-storage", "restore-storage", "revert-acct-field", "restore-acct-field", "add-same-value", "balance-by-delta", "revert-after-write"}
 	for id := a.From; id < a.To; id++ {
 		rng := vlog.CaseRand(a.Seed, "root10", id)
 		if id%5 == 4 {
@@ -347,8 +356,7 @@ func root10Workload(args []string) int {
 			}
 			shape := map[string]bool{}
 			// ---- order / history independence
-			for f := 0; f < 6; f++ {
-				style := styles[rng.Intn(len(styles))]
+			for _, style := range styles { // every history style in every case, each under a drawn cache variant
 				v := r10Variant{Name: style}
 				switch rng.Intn(3) {
 				case 0:
